@@ -247,7 +247,16 @@ func (rw *Rewriter) Visit(node sql.Node) (w sql.Visitor, n sql.Node, err error) 
 				}
 				n, err := strconv.Atoi(lit.Value)
 				if err != nil {
-					break
+					// SQLite also accepts hexadecimal and floating point literals,
+					// using the integer part of the latter.
+					if h, herr := strconv.ParseInt(lit.Value, 0, 64); herr == nil &&
+						strings.HasPrefix(strings.ToLower(lit.Value), "0x") {
+						n = int(h)
+					} else if f, ferr := strconv.ParseFloat(lit.Value, 64); ferr == nil && f < math.MaxInt32 {
+						n = int(f)
+					} else {
+						break
+					}
 				}
 				retNode = &sql.BlobLit{Value: fmt.Sprintf(`%X`, random.Bytes(max(n, 1)))}
 				rw.modified = true
